@@ -70,3 +70,133 @@ class BootPacket:
         d = _trace[0][1]
         return (seq_len(d) == 18 + seq_len(data)
                 and forall_range(0, seq_len(data), lambda j: select(d, 18 + j) == select(data, j - j % 4 + 3 - j % 4)))
+
+
+# ---- boot(): announces as many blocks as it sends; each block is the next kilobyte -----------------------
+from pyvc.values import TBool, TOpt, ObjV as _ObjV, NONE as _NONE, StrV as _StrV   # noqa: E402
+from rig.machine_control import boot as _boot_module   # noqa: E402,F401
+
+
+def _rec(name, ret=None):
+    def h(E, *a):
+        # works for both external functions (E, args, kwargs, st, node) and methods (E, obj, args, kwargs, st, node)
+        if len(a) == 5:
+            obj, args, kwargs, st, node = a
+        else:
+            args, kwargs, st, node = a
+            obj = None
+        s = st.copy()
+        s.trace = ListV(s.trace.items + ((name,) + tuple(args) + tuple(kwargs[k] for k in sorted(kwargs)),))
+        return [(s, _NONE, None)] if obj is not None else [(s, _NONE)]
+    return h
+
+
+def _resource_filename(E, args, kwargs, st, node):
+    return [(st, _StrV())]
+
+
+def _open2(E, args, kwargs, st, node):
+    # the two files are told apart by the order in which they are opened
+    n = st.ghost.get("_opened", 0)
+    s = st.copy()
+    s.ghost = dict(s.ghost)
+    s.ghost["_opened"] = n + 1
+    return [(s, _ObjV("File", {"n": n}))]
+
+
+def _file_read2(E, obj, args, kwargs, st, node):
+    return [(st, st.env["g_image"] if obj.fields["n"] == 0 else st.env["g_struct_text"], None)]
+
+
+def _same(E, obj, args, kwargs, st, node):
+    return [(st, obj, None)]
+
+
+def _none(E, obj, args, kwargs, st, node):
+    return [(st, _NONE, None)]
+
+
+def _read_struct_file(E, args, kwargs, st, node):
+    return [(st, _ObjV("Structs", {}))]
+
+
+def _structs_getitem(E, obj, args, kwargs, st, node):
+    return [(st, _ObjV("SvStruct", {}), None)]
+
+
+def _sv_pack(E, obj, args, kwargs, st, node):
+    return [(st, st.env["g_packed"], None)]
+
+
+def _socket(E, args, kwargs, st, node):
+    return [(st, _ObjV("Sock", {}))]
+
+
+def _time(E, args, kwargs, st, node):
+    return [(st, st.env["g_now"])]
+
+
+def _sleep(E, args, kwargs, st, node):
+    return [(st, _NONE)]
+
+
+@contract("rig/machine_control/boot.py::boot")
+class Boot:
+    properties = ("C20",)
+    params = dict(hostname=TInt(), boot_port=TInt(), scamp_binary=TOpt(TInt()), sark_struct=TOpt(TInt()),
+                  boot_delay=TInt(), post_boot_delay=TInt(),
+                  g_image=BYTES, g_struct_text=BYTES, g_packed=BYTES, g_now=TInt(0, None))
+    externals = {"pkg_resources.resource_filename": _resource_filename, "open": _open2, "File.__enter__": _same,
+                 "File.__exit__": _none, "File.read": _file_read2, "def:read_struct_file": _read_struct_file,
+                 "Structs.__getitem__": _structs_getitem, "SvStruct.update_default_values": _rec("sv.update_default_values"),
+                 "SvStruct.pack": _sv_pack, "socket.socket": _socket, "Sock.connect": _rec("connect"), "Sock.close": _rec("close"),
+                 "def:boot_packet": _rec("boot_packet"), "time.time": _time, "time.sleep": _sleep}
+    options = {"trace_in_loops": False}
+    raises = {"AssertionError": None}
+    loop_headers = {0: "while len(boot_data) > 0:"}
+    assumptions = ["files, clock, socket and the struct-file parser are external: the image, the packed system variables (>= 128 bytes) and the time are ghost inputs; boot_packet is recorded here and verified by its own contract"]
+
+    def native(hostname, boot_port, g_image, g_packed, g_now):
+        raise __import__("pyvc.replay", fromlist=["OutsideHarness"]).OutsideHarness()
+
+    def requires(g_image, g_packed):
+        # the function's own asserts: the image fits the DTCM and the packed variables fill the area
+        return seq_len(g_packed) >= 128 and 512 <= seq_len(g_image) < 32768
+
+    def raises_AssertionError(g_image):
+        return False
+
+    def inv_0_block_counter(boot_data, buf, block):
+        return (block >= 0 and seq_len(boot_data) == max(0, seq_len(buf) - 1024 * block)
+                and 1024 * block < seq_len(buf) + 1024 and seq_len(buf) < 32768)
+
+    def inv_0_remaining_image(boot_data, buf, block):
+        return forall_range(0, seq_len(boot_data), lambda i: select(boot_data, i) == select(buf, 1024 * block + i))
+
+    def variant_0(boot_data):
+        return seq_len(boot_data)
+
+    ghost_asserts = {"boot_packet(sock, BootCommand.send_block, a1, data=data)": ["ghost_block_is_the_next_kilobyte"],
+                     "boot_packet(sock, BootCommand.start, arg3=n_blocks - 1)": ["ghost_announces_the_number_of_blocks"]}
+
+    def ghost_announces_the_number_of_blocks(buf, n_blocks, g_image):
+        return seq_len(buf) == seq_len(g_image) and n_blocks == (seq_len(buf) + 1023) // 1024 and 1 <= n_blocks <= 32
+
+    def ghost_block_is_the_next_kilobyte(buf, block, a1, data, n_blocks):
+        n = seq_len(data)
+        return (0 <= block < n_blocks and a1 == 255 * 256 + block and 1 <= n <= 1024 and n == min(1024, seq_len(buf) - 1024 * block)
+                and forall_range(0, n, lambda i: select(data, i) == select(buf, 1024 * block + i)))
+
+    def ensures_sends_as_many_blocks_as_announced(local_block, local_n_blocks):
+        return local_block == local_n_blocks
+
+    def ensures_image_with_the_configuration_area_replaced(g_image, g_packed, local_buf):
+        return (seq_len(local_buf) == seq_len(g_image)
+                and forall_range(0, seq_len(g_image), lambda i: select(local_buf, i) == (
+                    select(g_packed, i - 384) if 384 <= i < 512 else select(g_image, i))))
+
+    def ensures_connect_start_then_end_close(hostname, boot_port, local_n_blocks, _trace):
+        return (len(_trace) >= 6 and _trace[2][0] == "connect" and _trace[2][1] == (hostname, boot_port)
+                and _trace[3][0] == "boot_packet" and _trace[3][2] == 1 and _trace[3][3] == local_n_blocks - 1
+                and _trace[4][0] == "boot_packet" and _trace[4][2] == 5 and _trace[4][3] == 1
+                and _trace[5][0] == "close")
